@@ -388,6 +388,7 @@ pub struct InstSummary {
     pub extra_some_after_done: u64,
     /// items (Ok or Err) handed out after the solver's own error, no fault involved (not judged)
     pub after_own_err: u64,
+    pub own_err_after_fault: u64,
     pub surfaced_not_first: bool,
     pub not_in_source_chain: bool,
     pub builder_calls: u64,
@@ -522,6 +523,8 @@ struct Oracle {
     user_err_seen: bool,
     /// items handed out after the solver's own error with no fault involved (counted only)
     after_own_err: u64,
+    /// errors of the solver itself handed out while a fired fault was still pending
+    own_err_after_fault: u64,
     done_seen: bool,
     ended_by: Option<EndedBy>,
     polls_after_end: u64,
@@ -575,6 +578,19 @@ fn judge_err(rt: &InstRt, ctx: &Ctx, e: &bacon_sci::ivp::IVPError, o: &mut Oracl
     }
     if fired.is_empty() {
         // the solver's own error; C06 says nothing about it, nor about what follows it
+        if o.ended_by.is_none() {
+            o.ended_by = Some(EndedBy::SolverErr(class));
+        }
+        return PollRet::Err(class, tags);
+    }
+    if class != ErrClass::User && tags.is_empty() && found.status.is_empty() && !found.unit && !found.nested {
+        // An error of the solver itself with no trace of any fault in it. A fault has fired, but
+        // this item may have been computed before the failing call and handed out after it (an
+        // iterator that works ahead of its consumer), so by itself it proves nothing: it does
+        // not arm the "nothing more" rule and it does not count as the surfaced error. If the
+        // user's error never comes out, the run ends as `not-surfaced` (judge_none, the budgets,
+        // and update_driving keeps polling while a fired fault is pending).
+        o.own_err_after_fault += 1;
         if o.ended_by.is_none() {
             o.ended_by = Some(EndedBy::SolverErr(class));
         }
@@ -757,7 +773,10 @@ fn handle_panic(rt: &InstRt, ctx: &Ctx, o: &mut Oracle, p: Box<dyn std::any::Any
 /// After every action: has this instance been driven as far as the plan says?
 fn update_driving(rt: &InstRt, ctx: &Ctx, o: &mut Oracle) {
     if o.err_seen || o.done_seen {
-        if o.polls_after_end >= rt.extra_polls {
+        // a fault has fired and its Err has not come out yet, and the iterator has not said None:
+        // the consumer keeps polling (the poll budget ends this)
+        let pending = !o.done_seen && !o.user_err_seen && !rt.stub.borrow().fired.is_empty();
+        if !pending && o.polls_after_end >= rt.extra_polls {
             rt.done_driving.set(true);
         }
     }
@@ -1053,6 +1072,73 @@ fn fold_once(rt: &Rc<InstRt>, ctx: &Rc<Ctx>, kind: u8, after_end: bool) {
     }
 }
 
+/// `it.fold(..)` / `it.for_each(..)` by value: every item is judged as it is handed to the
+/// closure; when the method returns the iterator has said `None` and is gone.
+fn walk_owned_once(rt: &Rc<InstRt>, ctx: &Rc<Ctx>, kind: u8) {
+    let it = match rt.iter.borrow_mut().take() {
+        Some(it) => it,
+        None => {
+            rt.done_driving.set(true);
+            return;
+        }
+    };
+    {
+        let next_poll = rt.o.borrow().polls + 1;
+        rt.stub.borrow_mut().cur_poll = next_poll;
+    }
+    let max_polls = rt.max_polls;
+    let r = {
+        let rt2 = rt.clone();
+        let ctx2 = ctx.clone();
+        catch_unwind(AssertUnwindSafe(move || {
+            it.walk_owned(kind, &mut |item| {
+                let mut o = rt2.o.borrow_mut();
+                o.polls += 1;
+                let poll_no = o.polls;
+                let was_ended = o.err_seen || o.done_seen;
+                let ret = match item {
+                    Item::Ok { t, .. } => {
+                        judge_ok(&rt2, &ctx2, &mut o);
+                        PollRet::Ok(t)
+                    }
+                    Item::Err(e) => judge_err(&rt2, &ctx2, &e, &mut o),
+                };
+                if was_ended {
+                    o.polls_after_end += 1;
+                }
+                let over = o.polls > max_polls + 64 || ctx2.violated();
+                drop(o);
+                rt2.stub.borrow_mut().cur_poll = poll_no + 1;
+                ctx2.log.borrow_mut().push(Event::Poll { inst: rt2.idx, poll: poll_no, ret });
+                if over {
+                    // an iterator that never ends would make the method run for ever
+                    std::panic::panic_any(HarnessAbort);
+                }
+            })
+        }))
+    };
+    let mut o = rt.o.borrow_mut();
+    match r {
+        Ok(()) => {
+            o.polls += 1;
+            let poll_no = o.polls;
+            if o.err_seen || o.done_seen {
+                o.extra_none += 1;
+            }
+            judge_none(rt, ctx, &mut o);
+            drop(o);
+            ctx.log.borrow_mut().push(Event::Poll { inst: rt.idx, poll: poll_no, ret: PollRet::None });
+        }
+        Err(p) => {
+            let ret = handle_panic(rt, ctx, &mut o, p);
+            let poll_no = o.polls + 1;
+            drop(o);
+            ctx.log.borrow_mut().push(Event::Poll { inst: rt.idx, poll: poll_no, ret });
+        }
+    }
+    rt.done_driving.set(true);
+}
+
 /// After the iterator has ended (with an `Err` or with `None`): consume it by value with
 /// `count()` or `last()`. After an `Err` there must be nothing left.
 fn finish_once(rt: &Rc<InstRt>, ctx: &Rc<Ctx>, last: bool) {
@@ -1319,7 +1405,7 @@ fn build_instance(
                 summary.builder_rejected = Some((op.code(), c));
                 return None;
             }
-            Outcome::Panic => return None,
+            Outcome::Panic | Outcome::Abort => return None,
         }
     }
     None
@@ -1340,6 +1426,7 @@ fn empty_summary() -> InstSummary {
         extra_none: 0,
         extra_some_after_done: 0,
         after_own_err: 0,
+        own_err_after_fault: 0,
         surfaced_not_first: false,
         not_in_source_chain: false,
         builder_calls: 0,
@@ -1624,6 +1711,7 @@ fn drive_once(rt: &Rc<InstRt>, ctx: &Rc<Ctx>, drive: Drive) {
         Drive::TakeBursts(k) => burst_once(rt, ctx, k.max(1) as usize),
         Drive::Nth0 => nth_once(rt, ctx),
         Drive::Walk(k) => fold_once(rt, ctx, k, false),
+        Drive::WalkOwned(k) => walk_owned_once(rt, ctx, k),
         Drive::PollThenWalk(k) => {
             let ended = {
                 let o = rt.o.borrow();
@@ -1641,6 +1729,17 @@ fn drive_once(rt: &Rc<InstRt>, ctx: &Rc<Ctx>, drive: Drive) {
                 o.err_seen || o.done_seen
             };
             if ended {
+                collect_once(rt, ctx, true)
+            } else {
+                poll_once(rt, ctx)
+            }
+        }
+        Drive::PollNThenCollect(n) => {
+            let (ended, polls) = {
+                let o = rt.o.borrow();
+                (o.err_seen || o.done_seen, o.polls)
+            };
+            if ended || polls >= n as u64 {
                 collect_once(rt, ctx, true)
             } else {
                 poll_once(rt, ctx)
@@ -1683,6 +1782,7 @@ fn execute_inner(spec: &RunSpec, budgets: &[Budget], opts: &ExecOpts) -> RunResu
 
     // adapter drives: a next()-driven shadow run of the same instance is the reference
     let mut shadows: Vec<Option<Vec<ItemRec>>> = vec![None; n];
+    let mut unbounded: Vec<bool> = vec![false; n];
     let mut shadow_violation: Option<Violation> = None;
     for i in 0..n {
         // (the by-value finishers count()/last()/collect_vec() cannot be bounded from outside, so
@@ -1701,6 +1801,12 @@ fn execute_inner(spec: &RunSpec, budgets: &[Budget], opts: &ExecOpts) -> RunResu
             let r = execute(&s, &b, &ExecOpts { record: false, keep_tail: 0, rec_polls: false, check_isolation: false, rec_items: true });
             if let (Some(v), None) = (r.violation, shadow_violation.as_ref()) {
                 shadow_violation = Some(Violation { inst: i as u32, ..v });
+            }
+            // by-value count()/last() cannot be bounded from outside: only on an iteration the
+            // shadow has seen end with None (an iterator that repeats its own error for ever
+            // without calling the derivative would never return from them)
+            if matches!(spec.instances[i].drive, Drive::Count | Drive::Last) && r.insts[0].items.last() != Some(&ItemRec::None) {
+                unbounded[i] = true;
             }
             shadows[i] = Some(r.insts[0].items.clone());
         }
@@ -1796,7 +1902,7 @@ fn execute_inner(spec: &RunSpec, budgets: &[Budget], opts: &ExecOpts) -> RunResu
             let rt = build(i, &mut summaries);
             let mut guard_steps: u64 = 0;
             while !ctx.violated() && !rt.done_driving.get() && guard_steps < 10_000_000 {
-                drive_once(&rt, &ctx, spec.instances[i].drive);
+                drive_once(&rt, &ctx, if unbounded[i] { Drive::Poll } else { spec.instances[i].drive });
                 guard_steps += 1;
             }
             rts.push(rt);
@@ -1828,7 +1934,7 @@ fn execute_inner(spec: &RunSpec, budgets: &[Budget], opts: &ExecOpts) -> RunResu
             } else {
                 live[sched.below(live.len() as u64) as usize]
             };
-            drive_once(&rts[pick], &ctx, spec.instances[pick].drive);
+            drive_once(&rts[pick], &ctx, if unbounded[pick] { Drive::Poll } else { spec.instances[pick].drive });
             guard_steps += 1;
             if guard_steps > 10_000_000 {
                 break;
@@ -1855,6 +1961,7 @@ fn execute_inner(spec: &RunSpec, budgets: &[Budget], opts: &ExecOpts) -> RunResu
         sm.extra_none = o.extra_none;
         sm.extra_some_after_done = o.extra_some_after_done;
         sm.after_own_err = o.after_own_err;
+        sm.own_err_after_fault = o.own_err_after_fault;
         sm.surfaced_not_first = o.surfaced_not_first;
         sm.not_in_source_chain = o.not_in_source_chain;
         sm.poll_calls = o.poll_calls.clone();
